@@ -312,20 +312,24 @@ every history of client reads and writes of
 the struct and of its members and of driver-side assignments to either, and every outcome of the driver
 bodies (any returned value, `None`, a `SECoPError` or any other exception (`ExcKind`) — also at any member position in
 the middle of a generated struct access), at every
-quiescent point the struct holds a value for every member and the member parameter shows the same value. -/
-theorem struct_members_agree (cfg : Cfg) (ops : List Op) :
-    ∀ s ∈ run cfg (init cfg) ops, MembersAgree cfg.members s.struct s.mem := by
+quiescent point the struct holds a value for every member and the member parameter shows the same value.  With and
+without the omission of unchanged updates (`cfg.omitUnch`: an omitted update runs no callback, so the cross-updating
+relies on "unchanged" meaning "already in agreement") and whatever pending flags (`sP`, `mP`) the parameters start with.
+`hnd`: the member names are the keys of a `dict`. -/
+theorem struct_members_agree (cfg : Cfg) (hnd : cfg.members.Nodup) (sP : Bool) (mP : List String) (ops : List Op) :
+    ∀ s ∈ run cfg { init cfg with sP := sP, mP := mP } ops, MembersAgree cfg.members s.struct s.mem := by
   intro s hs
   obtain ⟨pre, op, post, _, rfl⟩ := mem_scan _ _ _ _ hs
-  exact (inv_step cfg _ op (inv_exec cfg pre _ (inv_init cfg))).2
+  have hI : Inv cfg { init cfg with sP := sP, mP := mP } := inv_congr cfg rfl rfl (inv_init cfg)
+  exact (inv_step cfg hnd _ op (inv_exec cfg hnd pre _ hI)).2
 
 /-- the same from any consistent starting point (e.g. after start-up with configured values) -/
-theorem struct_members_agree_from (cfg : Cfg) (s0 : St) (h0 : wf cfg s0.struct = true)
+theorem struct_members_agree_from (cfg : Cfg) (hnd : cfg.members.Nodup) (s0 : St) (h0 : wf cfg s0.struct = true)
     (h1 : MembersAgree cfg.members s0.struct s0.mem) (ops : List Op) :
     ∀ s ∈ run cfg s0 ops, MembersAgree cfg.members s.struct s.mem := by
   intro s hs
   obtain ⟨pre, op, post, _, rfl⟩ := mem_scan _ _ _ _ hs
-  exact (inv_step cfg _ op (inv_exec cfg pre _ ⟨h0, h1⟩)).2
+  exact (inv_step cfg hnd _ op (inv_exec cfg hnd pre _ ⟨h0, h1⟩)).2
 
 def cfgA : Cfg := { members := ["p", "i", "d"], hasRS := true, hasWS := true, hasR := fun _ => false, hasW := fun _ => false }
 def cfgB : Cfg := { members := ["p", "i", "d"], hasRS := false, hasWS := false, hasR := fun m => m != "d", hasW := fun m => m != "d" }
@@ -355,6 +359,22 @@ example : (run cfgC (init cfgC) [
       .writeMember "i" 5 (.fail .secop) (.fail .secop) .retNone (.ok 6),
       .writeMember "p" 2 (.fail .secop) (.ok [("p", 3), ("i", 6)]) .retNone (.fail .key)]).map (fun s => (s.struct, s.mem, s.ok)) =
     [([("p", 0), ("i", 6)], [("p", 0), ("i", 6)], true), ([("p", 3), ("i", 6)], [("p", 3), ("i", 6)], true)] := by decide
+
+example : cfgA.members.Nodup ∧ cfgB.members.Nodup ∧ cfgC.members.Nodup := by decide
+
+/-- non-vacuity, unchanged updates omitted (per-member layout): a struct read that finds the values the parameters
+already have sends nothing at all; one that finds a new `p` updates that member and then the struct, whose callback leaves
+the unchanged members alone; after a failed read of `i` errors are pending on `i` and on the struct, and the next update of
+`i` (and, through its callback, of the struct) is sent although the values are the old ones -/
+example : (run { cfgB with omitUnch := true } (init cfgB) [
+      .readStruct (.fail .secop) (fun _ => .ok 0),
+      .readStruct (.fail .secop) (fun m => if m = "p" then .ok 7 else .ok 0),
+      .readStruct (.fail .secop) (fun m => if m = "p" then .ok 7 else .fail .value),
+      .readMember "i" (.fail .secop) (.ok 0)]).map (fun s => (s.struct == s.mem, s.mem, s.evs, s.sP, s.mP)) =
+    [(true, [("p", 0), ("i", 0), ("d", 0)], [], false, []),
+     (true, [("p", 7), ("i", 0), ("d", 0)], [.mem "p" 7, .struct [("p", 7), ("i", 0), ("d", 0)]], false, []),
+     (true, [("p", 7), ("i", 0), ("d", 0)], [], true, ["i"]),
+     (true, [("p", 7), ("i", 0), ("d", 0)], [.struct [("p", 7), ("i", 0), ("d", 0)], .mem "i" 0], false, [])] := by decide
 
 /-- the monitor rejects what the pinned code did (member assigned, struct stale) -/
 example : membersAgreeB ["p", "i"] [("p", 7), ("i", 1)] [("p", 9), ("i", 1)] = false := by decide
